@@ -162,6 +162,7 @@ def impl_builtin(case):
             scale = scale if bs is None else bs
         det = MW(_mk_score(case["score"]), bandwidth=b, threshold_scale=scale, level=case["level"],
                  min_detection_interval=case["mdi"])
+        det = core.reconfigure(det, case, "change_score")
         # fitted on the data, on a series of another length, or on an object overwritten in place afterwards
         data, nfit = core.fit_for(det, case, X)
         thr = float(det.threshold_)
